@@ -198,11 +198,15 @@ def harness(ctx, C, p):
         ctx.check("lazy parse accepts", rl.ok)
         obj = rl.value
         names = ["m%d" % i for i in range(len(ml)) if ml[i] not in ANON]
-        ctx.check("keys in declaration order", list(obj.keys()) == names and list(iter(obj)) == names and (len(obj) == len(ml)))
+        ctx.check("keys in declaration order", list(obj.keys()) == names and list(iter(obj)) == names)
+        ctx.check("len() is the number of (named) entries that keys() lists", len(obj) == len(names))
         vals = api.outcome(lambda: list(obj.values()))
         ctx.check("values() are the eager values in order", vals.ok and ctx.fork(ctx.eq(vals.value, [re_.value[n] for n in names])))
         items = api.outcome(lambda: list(obj.items()))
         ctx.check("items() pairs", items.ok and [k for k, v in items.value] == names)
-        ctx.check("equality with the eager container", api.outcome(lambda: bool(obj == re_.value)).ok)
+        e1, e2, e3 = api.outcome(lambda: obj == re_.value), api.outcome(lambda: re_.value == obj), api.outcome(lambda: obj != re_.value)
+        ctx.check("the lazy result compares equal to the eager container, in both directions", e1.ok and e2.ok and bool(ctx.fork(e1.value)) and bool(ctx.fork(e2.value)))
+        ctx.check("and != agrees with ==", e3.ok and not bool(ctx.fork(e3.value)))
+        ctx.check("membership tests see the named members", all(n in obj for n in names) and ("no_such_member" not in obj))
         return "ok"
     raise ValueError(kind)
